@@ -148,6 +148,11 @@ type Rec struct {
 	Keys   []string `json:"keys,omitempty"`
 	Copies []Copy    `json:"copies,omitempty"`
 	Snap   *Snapshot `json:"snap,omitempty"`
+	// RtInv / RtRet: a hash over the routing signatures (last applied routing table) of all running
+	// members when a Delete was invoked and when it returned; they differ when a routing table was
+	// pushed, or the membership changed, while the operation ran
+	RtInv uint64 `json:"rt_inv,omitempty"`
+	RtRet uint64 `json:"rt_ret,omitempty"`
 	Info   string   `json:"info,omitempty"`
 }
 
